@@ -322,6 +322,54 @@ func ruleCodecPair(c *Ctx, rule string) {
 						}
 					}
 				}
+				// the library writes a trailer section only for a chunked message: when the head copy has trailers, its
+				// framing is switched to chunked before this dump (a store to TransferEncoding that can reach the dump and
+				// is made under a condition on a trailer map)
+				chunked := ""
+				if refs := al.Referrers(); refs != nil {
+					for _, r := range *refs {
+						fa, ok := r.(*ssa.FieldAddr)
+						if !ok || fieldName(fa.X.Type(), fa.Field) != "TransferEncoding" || fa.Referrers() == nil {
+							continue
+						}
+						for _, u := range *fa.Referrers() {
+							st, ok := u.(*ssa.Store)
+							if !ok || st.Addr != ssa.Value(fa) {
+								continue
+							}
+							reaches := st.Block() == in.Block() && instrDominates(st, in) || st.Block() != in.Block() && reachableAvoiding(st.Block(), in.Block(), nil)
+							if !reaches {
+								continue
+							}
+							for _, dc := range controlConds(st.Block()) {
+								readsTrailer := false
+								c.P.TraceBack(dc.cond, TraceOpts{ThroughOps: true, ThroughExtern: true}, func(v ssa.Value, _ []int) bool {
+									if f2, ok := v.(*ssa.FieldAddr); ok && fieldName(f2.X.Type(), f2.Field) == "Trailer" {
+										readsTrailer = true
+										return false
+									}
+									if uo, ok := v.(*ssa.UnOp); ok {
+										if f2, ok := uo.X.(*ssa.FieldAddr); ok && fieldName(f2.X.Type(), f2.Field) == "Trailer" {
+											readsTrailer = true
+											return false
+										}
+									}
+									return true
+								})
+								if readsTrailer {
+									chunked = c.P.InstrPos(st)
+								}
+							}
+						}
+					}
+				}
+				dk := fmt.Sprintf("dump-chunked-when-trailers #%d", n)
+				dd := "a head copy that has trailers is written with chunked framing (the only framing the library writes trailers for)"
+				if chunked != "" {
+					c.Pass(rule, dk, dd, where+" after "+chunked)
+				} else {
+					c.Fail(rule, dk, dd, where+": no switch to chunked framing under a trailer condition in front of this dump; the trailer fields of an HTTP/2 response (no Transfer-Encoding) are not written into the entry")
+				}
 				if closeCleared {
 					c.Pass(rule, "dump-without-connection-state", "the stored message does not carry this hop's Close flag (it would come back as `Connection: close`)", where)
 				} else {
